@@ -428,10 +428,10 @@ def binding_selftest(c, spec_dir, module, cfg, trace_path, corrupt, what):
 def generic_replay(c, path):
     """Re-execute a replay file written by Check.violation against the current tree."""
     r = json.load(open(path))
-    build_harness()
     cmd = r.get("harness_cmd")
     if not cmd:
         raise MachineryError("replay file has no harness_cmd")
+    build_harness([cmd[0]])
     if r.get("kind") == "behaviour":
         bf = os.path.join(c.scratch, "beh.ndjson")
         with open(bf, "w") as f:
@@ -468,5 +468,15 @@ def run_harness_sharded(binary, args, shards, *, timeout=3600, env=None):
         for k, v in (r.get("op_counts") or {}).items():
             oc[k] = oc.get(k, 0) + v
     out["op_counts"] = oc
+    ex = {}
+    for r in reps:
+        for k, v in (r.get("extra") or {}).items():
+            if isinstance(v, (int, float)) and not isinstance(v, bool):
+                ex[k] = ex.get(k, 0) + v
+            elif isinstance(v, list):
+                ex[k] = (ex.get(k) or []) + v
+            else:
+                ex.setdefault(k, v)
+    out["extra"] = ex
     out["_wall"] = max(r["_wall"] for r in reps)
     return out
